@@ -28,6 +28,9 @@ D2 == IF Depth2 THEN UNION {Un(y) : y \in UNION {Un(x) : x \in Small}} ELSE UNIO
 D3 == IF Depth3 THEN UNION {Un(z) : z \in UNION {Un(y) : y \in {E1("Box", E0("u8")), E1("Vec", E0("u8")), E1("Option", E0("String")), E1("PhantomData", E0("u8")), E1("Ref", E0("str"))}}} ELSE {}
 Corpus == Leaves \cup Unsized \cup D1 \cup D2 \cup D3 \cup UNION {Bin(x, y) : x \in Small \cup {E1("Box", E0("u8"))}, y \in Small \cup {E1("Vec", E0("bool")), E1("PhantomData", Unit)}}
           \cup {TupleN(n) : n \in 0..20} \cup BitVecs \cup {E0("Lsb0"), E0("Msb0")}
+          \* a compound member FOLLOWED by one of the types it contains (met for the first time inside that member)
+          \cup UNION {{Tup(<<E1("Option", x), x>>), Tup(<<E1("Vec", x), x>>), Tup(<<Tup(<<E0("bool"), x>>), x>>), Tup(<<E2("Result", E0("bool"), x), x>>),
+                       E2("BTreeMap", E1("Vec", x), x)} : x \in {E0("u16"), E0("String"), E0("i64")}}
           \* two same-named, same-path user types, alone and inside built-in constructors
           \cup UNION {{L, E1("Vec", L), E1("Option", L), E1("Box", L), ArrE(2, L), E2("Result", L, E0("u8"))} : L \in {[c |-> "Local", a |-> <<>>, n |-> 1], [c |-> "Local", a |-> <<>>, n |-> 2]}}
           \cup {Tup(<<[c |-> "Local", a |-> <<>>, n |-> 1], [c |-> "Local", a |-> <<>>, n |-> 2]>>)}
